@@ -502,6 +502,86 @@ def rule_h(ctx, idx, A):
         ctx.hold("C14.h", "%s::no-blocking-lock" % A.command.qual, K.rel(A.run), A.command.node.lineno, "Command creates no non-reentrant lock", nontrivial=False)
 
 
+def rule_j(ctx, idx, A, errcls):
+    ctx.rule(
+        "C14.j",
+        "The recursive-model error travels up unabsorbed: wherever a `try` evaluates other commands (`.result`, `.run()`, execute - "
+        "directly or through a function defined beside it), no handler that admits RecursiveModelStructure (bare, BaseException, "
+        "Exception, MPilotError, ProgramError, the class itself) swallows it: the handler re-raises it (bare `raise`, or `if "
+        "isinstance(e, <MPilot error>): raise` first), ends the process with a non-zero status, or is preceded by a handler of "
+        "RecursiveModelStructure that re-raises. A command that reports a failing input in place (a listing, a fallback value) "
+        "and catches the MPilot root there turns a cyclic model into a normal run.",
+    )
+    ADMIT = {"BaseException", "Exception", "MPilotError", "ProgramError", errcls.name if hasattr(errcls, "name") else "RecursiveModelStructure", "RecursiveModelStructure"}
+
+    def admits(h):
+        if h.type is None:
+            return True
+        ts = h.type.elts if isinstance(h.type, ast.Tuple) else [h.type]
+        return any((K.src(t).split(".")[-1]) in ADMIT for t in ts)
+
+    def evaluates(mod, fi, stmts, depth=0, seen=None):
+        seen = seen if seen is not None else set()
+        for st in stmts:
+            for x in ast.walk(st):
+                if isinstance(x, ast.Attribute) and x.attr == "result" and isinstance(x.ctx, ast.Load):
+                    return x
+                if isinstance(x, ast.Call) and isinstance(x.func, ast.Attribute) and x.func.attr in ("run", "execute") and not (isinstance(x.func.value, ast.Name) and x.func.value.id in ("subprocess", "parser")):
+                    return x
+                if isinstance(x, ast.Call) and isinstance(x.func, ast.Name) and depth < 3:
+                    for f2 in idx.funcs:
+                        if f2.name == x.func.id and f2.module is mod and (f2.parent is fi or f2.parent is None and getattr(f2, "cls", None) is None) and id(f2) not in seen:
+                            seen.add(id(f2))
+                            if evaluates(mod, f2, f2.node.body, depth + 1, seen) is not None:
+                                return x
+        return None
+
+    def reraises(h, cli_ok):
+        """every way through the handler body leaves by raising what was caught (or by ending the process, for the command-line tool)"""
+        nm = h.name
+
+        def leaves(stmts):
+            for st in stmts:
+                if isinstance(st, ast.Raise) and (st.exc is None or (isinstance(st.exc, ast.Name) and st.exc.id == nm)):
+                    return True
+                if isinstance(st, ast.If) and isinstance(st.test, ast.Call) and K.src(st.test.func) == "isinstance" and st.test.args and K.src(st.test.args[0]) == nm \
+                        and any(K.src(t).split(".")[-1] in ADMIT - {"BaseException", "Exception"} for t in (st.test.args[1].elts if isinstance(st.test.args[1], ast.Tuple) else [st.test.args[1]])) \
+                        and leaves(st.body):
+                    return True  # the MPilot errors (the recursive-model error among them) go on as they are; what follows deals with the others
+                if isinstance(st, ast.If) and st.orelse and leaves(st.body) and leaves(st.orelse):
+                    return True
+                if cli_ok and isinstance(st, ast.Expr) and isinstance(st.value, ast.Call) and K.src(st.value.func) in ("sys.exit", "exit", "os._exit") and st.value.args \
+                        and not (isinstance(st.value.args[0], ast.Constant) and st.value.args[0].value in (0, None)):
+                    return True
+            return False
+
+        return leaves(h.body)
+
+    n_try = n_adm = 0
+    for mod, fi, n in K.scoped_nodes(idx):
+        if not isinstance(n, ast.Try) or "/tests/" in mod.rel:
+            continue
+        n_try += 1
+        ev = None
+        for i, h in enumerate(n.handlers):
+            if not admits(h):
+                continue
+            if ev is None:
+                ev = evaluates(mod, fi, n.body) or False
+            if not ev:
+                break
+            n_adm += 1
+            con = "%s::handler@%s::loop-error-goes-on" % (K.where(mod, fi), K.src(h.type) if h.type is not None else "bare")
+            is_cli = mod.rel.startswith("mpilot/cli/")
+            if reraises(h, is_cli):
+                ctx.hold("C14.j", con, mod.rel, h.lineno, "the handler hands the error on (re-raise%s)" % (" / non-zero exit" if is_cli else ""))
+            else:
+                ctx.violate("C14.j", con, mod.rel, h.lineno, "`except %s` around `%s` absorbs the recursive-model error: a command on a reference loop is evaluated here, the loop error raised underneath is caught with the rest and the run goes on - the cyclic model is accepted (or its error replaced by whatever fails next)" % (K.src(h.type) if h.type is not None else "", K.src(ev)[:50]))
+            break  # the first admitting handler is the one that catches it
+    ctx.floor("C14.j", "try statements examined", n_try, 10)
+    ctx.floor("C14.j", "handlers around an evaluation that admit the loop error", n_adm, 2)
+
+
 def rule_f(ctx, idx, A):
     ctx.rule(
         "C14.f",
@@ -552,6 +632,7 @@ def run(ctx, idx):
     from .C01 import rule_e
 
     rule_e(ctx, idx, A, rule="C14.e", text="Restated here because the re-entry guard can only fire on a reference that is actually read: a cycle closed through an input the consumer skips (a zero weight, a short-circuit over the list) is never entered and the cyclic model runs to completion.")
+    rule_j(ctx, idx, A, errcls)
     ctx.count("functions", len(idx.funcs))
     if deferred is not None:
         raise deferred
